@@ -45,6 +45,10 @@ class SamplerErr(Exception):
     pass
 
 
+class SamplerInterrupt(KeyboardInterrupt):
+    """the sampler (or the storage read in Trial.__init__) is interrupted while Study.ask builds the Trial object"""
+
+
 class CbErr(Exception):
     pass
 
@@ -145,7 +149,7 @@ def project_exc(e, impl):
     if e is None:
         return "none"
     e1 = E1_CLASSES[impl["e1"] % len(E1_CLASSES)][0]
-    if isinstance(e, SamplerErr):
+    if isinstance(e, (SamplerErr, SamplerInterrupt)):
         return "SE"
     if isinstance(e, CbErr):
         return "CE"
@@ -204,13 +208,13 @@ def make_sampler_pruner(impl, script, nobj):
         def before_trial(self, study, trial):
             s = entry(trial.number)
             if s and s["saA"] == "raise" and s["var"] % 2 == 0:
-                raise SamplerErr("before_trial")
+                raise (SamplerInterrupt if s["var"] % 3 == 0 else SamplerErr)("before_trial")
             base.before_trial(study, trial)
 
         def infer_relative_search_space(self, study, trial):
             s = entry(trial.number)
             if s and s["saA"] == "raise" and s["var"] % 2 == 1:
-                raise SamplerErr("infer_relative_search_space")
+                raise (SamplerInterrupt if s["var"] % 3 == 0 else SamplerErr)("infer_relative_search_space")
             return base.infer_relative_search_space(study, trial)
 
         def sample_relative(self, study, trial, search_space):
